@@ -444,9 +444,13 @@ def _spec_min_width(spec: str) -> Optional[int]:
 def _writer_out_list(ctx, w: FuncInfo) -> tuple[str, ast.Return]:
     """name of the list whose elements are the lines of the returned text, and the return"""
     for n in own_walk(w.node):
-        if isinstance(n, ast.Return) and isinstance(n.value, ast.Call) and isinstance(n.value.func, ast.Attribute) and n.value.func.attr == "join" \
-                and n.value.args and isinstance(n.value.args[0], ast.Name):
-            return n.value.args[0].id, n
+        if isinstance(n, ast.Return) and n.value is not None:
+            v = n.value
+            if isinstance(v, ast.Name):
+                v = single_def(w.node, v.id) or v          # text = "\n".join(lines); return text
+            if isinstance(v, ast.Call) and isinstance(v.func, ast.Attribute) and v.func.attr == "join" and v.args and isinstance(v.args[0], ast.Name):
+                r = ast.copy_location(ast.Return(v), n)
+                return v.args[0].id, r
     raise AnalysisError("graph_to_molfile no longer returns `<sep>.join(<list>)`")
 
 
@@ -657,6 +661,12 @@ def _last_chars(ctx, fi: FuncInfo, e: ast.expr, depth=0) -> Optional[set]:
         if pending:
             out.add("")
         return out
+    if isinstance(e, (ast.Name, ast.Attribute)) and not (isinstance(e, ast.Name) and (e.id in assigned_names(fi.node) or e.id in params_of(fi.node))):
+        c = try_const(ctx, fi, e)           # a module-level constant used for the text
+        if isinstance(c, str):
+            return {c[-1]} if c else {""}
+        if isinstance(c, (int, float)) and not isinstance(c, bool):
+            return set(DIGITS)
     if isinstance(e, ast.Name):
         defs = assigned_names(fi.node).get(e.id, [])
         if defs and all(isinstance(d, ast.comprehension) for d in defs):
@@ -1143,7 +1153,7 @@ def _check_line_sequence(ctx, wh: FuncInfo, res: RuleResult):
     for q in ctx.cg.closure([v3.fq]):
         f = ctx.cg.funcs[q]
         for x in own_walk(f.node):
-            if isinstance(x, ast.Compare) and isinstance(x.comparators[0], ast.Constant) and x.comparators[0].value == "COUNTS" and isinstance(x.left, ast.Subscript):
+            if isinstance(x, ast.Compare) and try_const(ctx, f, x.comparators[0]) == "COUNTS" and isinstance(x.left, ast.Subscript):
                 row = x.left.value
                 if isinstance(row, ast.Name):           # counts_line = lines[5]; counts_line[2] != "COUNTS"
                     row = single_def(f.node, row.id)
@@ -1183,7 +1193,7 @@ def _check_line_sequence(ctx, wh: FuncInfo, res: RuleResult):
         for q in ctx.cg.closure([v3.fq]):
             f = ctx.cg.funcs[q]
             for x in own_walk(f.node):
-                if isinstance(x, ast.Compare) and isinstance(x.comparators[0], ast.Constant) and x.comparators[0].value == "COUNTS" and isinstance(x.left, ast.Subscript):
+                if isinstance(x, ast.Compare) and try_const(ctx, f, x.comparators[0]) == "COUNTS" and isinstance(x.left, ast.Subscript):
                     row = x.left.value
                     for _ in range(3):
                         if isinstance(row, ast.Name):
@@ -1222,22 +1232,24 @@ def _check_line_sequence(ctx, wh: FuncInfo, res: RuleResult):
     hdr = None
     for fi in closure(ctx, "write"):
         for n in own_walk(fi.node):
-            if isinstance(n, ast.Call) and isinstance(n.func, ast.Attribute) and n.func.attr == "append" and n.args and isinstance(n.args[0], ast.Constant) \
-                    and isinstance(n.args[0].value, str) and n.args[0].value.rstrip().endswith("V3000"):
-                hdr = (fi, n)
+            if isinstance(n, ast.Call) and isinstance(n.func, ast.Attribute) and n.func.attr == "append" and n.args:
+                txt_ = try_const(ctx, fi, n.args[0])          # a literal or a named constant
+                if isinstance(txt_, str) and txt_.rstrip().endswith("V3000"):
+                    hdr = (fi, n, txt_)
     ok = hdr is not None
     if ok:
-        fi, n = hdr
+        fi, n, txt_ = hdr
         idx = sum(1 for st in fi.node.body if isinstance(st, ast.Expr) and isinstance(st.value, ast.Call) and isinstance(st.value.func, ast.Attribute)
                   and st.value.func.attr == "append" and st.value.lineno < n.lineno)
-        ok = idx == 3 and n.args[0].value.rstrip().split(" ")[-1] == "V3000"
+        ok = idx == 3 and txt_.rstrip().split(" ")[-1] == "V3000"
     res.inst(w.fq, "version line `… V3000` is the 4th header line", "ok" if ok else "fail")
     if not ok:
         res.fail(Finding("R-FIELDS", w.module.rel, w.qualname, "version line", "the `V3000` version line is not the 4th line of the header", line=w.node.lineno))
     # omitted bond block <-> reader's bond_count == 0 shortcut
     bondf = None
     for fi in closure(ctx, "write"):
-        if any(isinstance(x, ast.Constant) and x.value == "BEGIN BOND" for x in ast.walk(fi.node)):
+        from .common import mentions_text
+        if mentions_text(ctx, fi, fi.node, "BEGIN BOND"):
             bondf = fi
     if bondf is None:
         raise AnalysisError("R-FIELDS: writer has no bond block")
